@@ -26,7 +26,7 @@ from typing import Dict, Iterable, List, Optional, Set, Tuple
 
 from asl.cfg import CFG, Node, cfg_of
 from asl.flow import find_path, pretty_path, reachable
-from asl.loader import Unit, norm
+from asl.loader import AnalysisError, Unit, norm
 from asl.values import USERISH, Val, atoms_deep, mentions, roles_of_annotation
 from .common import real_units
 
@@ -143,6 +143,17 @@ def _is_close_helper_await(ctx, unit: Unit, n: Node, src: Optional[str]) -> bool
     return False
 
 
+def _only_library_containers(ctx, u: Unit, pname: str) -> bool:
+    """An internal helper whose iterable parameter is, at every call site, a container built by
+    the library (the tuple of a ``*args`` parameter, a list the caller filled): iterating it is not
+    iterating a user's iterable, there is nothing to close."""
+    from . import c03
+    if not c03._is_internal(u):
+        return False
+    b = c03.bindings(ctx, u, pname)
+    return bool(b) and all(bv and all(x[0] in ("elems", "fresh", "kwargs") for x in bv) for bv in b)
+
+
 def iterable_params(ctx) -> List[Tuple[Unit, str, str]]:
     out = []
     for u in real_units(ctx):
@@ -155,6 +166,8 @@ def iterable_params(ctx) -> List[Tuple[Unit, str, str]]:
             if "ITERABLE" in roles:
                 if closes_all_param(ctx, u, p.arg):
                     continue  # a private cleanup helper: it *is* the close of what it receives
+                if _only_library_containers(ctx, u, p.arg):
+                    continue  # a private helper that is handed the tuple of ``*args`` / a list its caller built
                 out.append((u, p.arg, f"{u.short}:{p.arg}"))
     return out
 
@@ -522,6 +535,59 @@ def _inert_lib(ctx, qual: str) -> bool:
     return False
 
 
+class _DefaultsOps:
+    """Just enough evaluation to tell which branches of a helper depend on parameters the call
+    leaves at their defaults: module globals are themselves, identity tests on them are decided."""
+
+    def name(self, ident, env):
+        return ("GLOBAL", ident)
+
+    def compare(self, op, left, right, env):
+        from asl.absint import UNKNOWN
+        if op in ("Is", "IsNot"):
+            known = lambda v: v is None or (isinstance(v, tuple) and v[:1] == ("GLOBAL",))  # noqa: E731
+            if known(left) and known(right):
+                return (left == right) if op == "Is" else (left != right)
+        return UNKNOWN
+
+
+def _lib_raises(ctx, qual: str, call: ast.Call) -> bool:
+    """A synchronous library function from which an explicit ``raise`` can escape *for this call*:
+    the helper is evaluated with the supplied arguments unknown and the omitted ones at their defaults
+    (``iter(x)`` never reaches the validation of the two-argument form)."""
+    from asl.absint import UNKNOWN, AbsEval, Machine
+    target = ctx.pkg.lib_unit(qual)
+    if target is None or target.kind != "sync" or target.is_overload():
+        return False
+    cfg = cfg_of(target)
+    if not any(r.kind == "raise" and isinstance(r.ast, ast.Raise) and r.ast.exc is not None for r in cfg.nodes):
+        return False
+    a = target.node.args
+    names = [p.arg for p in list(a.posonlyargs) + list(a.args)]
+    supplied = set(names[:len([x for x in call.args if not isinstance(x, ast.Starred)])]) | {k.arg for k in call.keywords if k.arg}
+    if any(isinstance(x, ast.Starred) for x in call.args) or any(k.arg is None for k in call.keywords):
+        supplied = set(names) | {p.arg for p in a.kwonlyargs}
+    memo = ctx.__dict__.setdefault("_lib_raises", {})
+    key = (qual, tuple(sorted(supplied)))
+    if key in memo:
+        return memo[key]
+    memo[key] = True
+    ops = _DefaultsOps()
+    ev = AbsEval(ops)
+    defaults = dict(zip(names[len(names) - len(a.defaults):], a.defaults))
+    defaults.update({p.arg: d for p, d in zip(a.kwonlyargs, a.kw_defaults) if d is not None})
+    env = {}
+    for nme in names + [p.arg for p in a.kwonlyargs]:
+        env[nme] = UNKNOWN if nme in supplied or nme not in defaults else ev.eval(defaults[nme], {})
+    try:
+        outs = Machine(cfg, ops, max_steps=400, max_outcomes=400).run(env)
+    except AnalysisError:
+        return True
+    memo[key] = any(oc.terminal.kind == "raise_exit" and any(x.kind == "raise" and isinstance(x.ast, ast.Raise) for x in oc.path)
+                    for oc in outs)
+    return memo[key]
+
+
 def is_risky(ctx, unit: Unit, n: Node, kinds: Optional[Tuple[str, ...]] = None) -> bool:
     k = n.kind
     if kinds is not None and k not in kinds:
@@ -545,7 +611,10 @@ def is_risky(ctx, unit: Unit, n: Node, kinds: Optional[Tuple[str, ...]] = None) 
         if _names_aclose(ctx, unit, n.ast.func, n):  # type: ignore[union-attr]
             return False  # creating the close awaitable is part of the cleanup itself
         v = ctx.vals.expr(unit, n.ast.func, n)  # type: ignore[union-attr]
-        return any(a[0] in USERISH for a in v)
+        if any(a[0] in USERISH for a in v):
+            return True
+        # a synchronous library helper that validates its argument (an explicit raise that can leave it)
+        return any(a[0] == "libfn" and _lib_raises(ctx, a[1], n.ast) for a in v)
     if k == "op":
         for operand in n.info.get("operands", []):
             v = ctx.vals.expr(unit, operand, n)
@@ -731,7 +800,7 @@ def _why(n: Node) -> str:
         "pull": "pulling the source can raise or be cancelled",
         "enter": "entering a user context manager can raise or be cancelled",
         "exit_cm": "a context-manager exit can raise or be cancelled",
-        "call": "a user callable is invoked",
+        "call": "a call can raise (a user callable, or a library helper that rejects its argument)",
         "op": "an operator runs user code",
         "snext": "iterating a user object can raise",
         "siter": "iterating a user object can raise",
